@@ -53,10 +53,17 @@ ScalarsOf(o, n, tol, white, nomv) ==
                    /\ Close(o.sc.mrt2[lm], o.sc.mrt[lm], 0)
                    /\ Close(o.sc.went[lm], Entropy(o.white, lm), tol)
   /\ white => o.maxw = MaxLen(o.white)
+  \* the summary is the four measures with the minimal lengths it was asked for (l_min = 3, v_min = 1)
+  /\ o.summary_keys = <<"DET", "L", "LAM", "RR">>
+  /\ Close(o.summary[1], o.rr, 0) /\ Close(o.summary[2], o.sc.det[3], 0)
+  /\ Close(o.summary[3], o.sc.L[3], 0) /\ Close(o.summary[4], o.sc.lam[1], 0)
   \* without missing states every recurrence point lies on exactly one vertical line
   /\ nomv => Close(o.rr, FxDiv(Mass(o.vert), n * n, S6), tol)
 Scalars(e) == /\ ScalarsOf(e.mat, e.n, Tol(e), TRUE, e.mvflag = 0)
               /\ e.hasseq = 1 => ScalarsOf(e.seq, e.n, Tol(e), FALSE, e.mvflag = 0)
+\* probability that the trajectory recurs after `lag` steps: the mean of the lag-th diagonal of R
+RProbDef(e) == \A lag \in 0..(Len(e.mat.rprob) - 1) :
+   Close(e.mat.rprob[lag + 1], FxDiv(SumN(LAMBDA k : Rm(e)[k][k + lag], 1, e.n - lag), e.n - lag, S6), Tol(e))
 RRDef(e) == Close(e.mat.rr, FxDiv(Points(Rm(e), 1), e.n * e.n, S6), Tol(e))
 
 Tags(e) == e.blk \o (IF e.mvflag = 1 THEN ",missing" ELSE "")
@@ -82,6 +89,7 @@ Verdict(e) ==
   ELSE IF ~SeqEqMatrix(e) THEN R_("SeqEqMatrix", "sparse_rqa", e)
   ELSE IF ~RRDef(e) THEN R_("RRDef", "recurrence_rate", e)
   ELSE IF ~Scalars(e) THEN R_("Scalars", "rqa measures", e)
+  ELSE IF ~RProbDef(e) THEN R_("Scalars", "recurrence_probability", e)
   ELSE <<"ACCEPT", "", "", Tags(e)>>
 
 \* all verdicts, evaluated once at constant level (TLC caches LET definitions only there)
